@@ -616,7 +616,30 @@ func runC12(c *Ctx) {
 					}
 				})
 			}
-			c.Check("C12.L", "dial-error:cancels", p, d.Pos(), ok, "a failed dial cancels the derived context and starts no goroutine", "the dial-error path does not cancel the derived context")
+			if !ok && ifi != nil {
+				// … or there is nothing to cancel yet: the context is only derived after the dial succeeded
+				// (no context.With* call can have run before the error branch) and the branch starts no goroutine
+				blk := ifi.Block().Succs[succ]
+				none := true
+				for _, in := range blk.Instrs {
+					if _, isGo := in.(*ssa.Go); isGo {
+						none = false
+					}
+				}
+				for _, w := range Calls(nc, "context.WithCancel", "context.WithTimeout", "context.WithDeadline", "context.WithCancelCause") {
+					if w.Parent() != nc {
+						none = false
+						continue
+					}
+					if h, _ := (&Walk{Target: func(j ssa.Instruction) bool { return j == blk.Instrs[0] }, Local: true}).FromInstr(w); h != nil || w.Block() == blk {
+						none = false
+					}
+				}
+				if none {
+					ok = true
+				}
+			}
+			c.Check("C12.L", "dial-error:cancels", p, d.Pos(), ok, "a failed dial cancels the derived context (or none was derived yet) and starts no goroutine", "the dial-error path does not cancel the derived context")
 		}
 	}
 	if cl := c.need(p, "C12.L", "agent/websockets.(*Connection).Close"); cl != nil {
